@@ -683,9 +683,14 @@ func vhBytesEqS(a, b []byte) bool {
 func VH_C06_LaterPass() {
 	vhReset()
 	conf := vhConf(vhStoreKind("dir"))
-	// the grace period is disabled by ANY negative duration
-	g := vh.Int64("graceNegative")
-	vh.Assume(g < 0 && g > -(1<<42))
+	// the grace period is disabled by ANY negative duration, or is any positive duration
+	graceOn := vh.Bool("graceOn")
+	g := vh.Int64("grace")
+	if graceOn {
+		vh.Assume(g > 0 && g < 1<<42)
+	} else {
+		vh.Assume(g < 0 && g > -(1<<42))
+	}
 	conf.Storage.GC.GracePeriod = time.Duration(g)
 	st := vhNewStore(conf)
 	pass := func(cur, prev time.Time) {
@@ -711,14 +716,33 @@ func VH_C06_LaterPass() {
 	vclock.Advance(time.Duration(dt))
 	r = vhRepo(st, "a")
 	garbage := vhPutBlob(r, []byte("garbage"))
+	tGarbage := vclock.LastNs()
 	r.Done()
+	// any time later the repository may be changed again (a second tag on the image): its
+	// last change is then younger than its garbage
+	if vh.Bool("changedAgain") {
+		dt3 := vh.Int64("beforeSecondChange")
+		vh.Assume(dt3 >= 0 && dt3 < 1<<44)
+		vclock.Advance(time.Duration(dt3))
+		r = vhRepo(st, "a")
+		_ = r.IndexInsert(types.Descriptor{MediaType: types.MediaTypeOCI1Manifest, Digest: d, Size: int64(len(img)), Annotations: map[string]string{types.AnnotRefName: "t2"}})
+		r.Done()
+		vh.Cover("C06.later-pass-changed-again")
+	}
 	// the next pass, any time later
 	dt2 := vh.Int64("beforeNextPass")
 	vh.Assume(dt2 >= 0 && dt2 < 1<<44)
 	vclock.Advance(time.Duration(dt2))
-	pass(vclock.Now(), t1)
+	cur := vclock.Now()
+	pass(cur, t1)
 	r = vhRepo(st, "a")
-	vh.Assert(!vhBlobExists(r, garbage), "C06.repository-starved-by-pass-window")
+	if !graceOn {
+		vh.Assert(!vhBlobExists(r, garbage), "C06.repository-starved-by-pass-window")
+	} else if vclock.Ns(cur)-tGarbage > g {
+		// the grace period of the garbage had elapsed when the pass started
+		vh.Assert(!vhBlobExists(r, garbage), "C06.repository-starved-by-pass-window")
+		vh.Cover("C06.later-pass-grace-elapsed")
+	}
 	vh.Assert(vhBlobExists(r, d), "C06.tagged-removed")
 	r.Done()
 	vh.Cover("C06.later-pass-end")
